@@ -91,6 +91,7 @@ class Ctx:
             raise MachineryError('vacuity: actions never taken in %s %s: %s' % (module, cfg, never))
         self.cov['states'] += r['distinct']
         self.cov['transitions'] += r['generated']
+        self.cov['model_states'] = self.cov.get('model_states', 0) + r['distinct']
         return r, out
 
     # ---- executions + trace validation
@@ -116,6 +117,10 @@ class Ctx:
         fam['stuck_nondeterministic'] += stuck
         self.cov['evaluations'] += len(ok_idx)
         self.cov['traces_validated_against_impl'] += len(ok_idx)
+        # TLC also counts the states of the trace specification (one per consumed event)
+        self.cov['trace_validation_states'] = self.cov.get('trace_validation_states', 0) + st.get('states', 0)
+        self.cov['states'] += st.get('states', 0)
+        self.cov['transitions'] += st.get('generated', 0)
         out = []
         for i, v in zip(ok_idx, verdicts):
             sc, r = scenarios[i], results[i]
